@@ -36,7 +36,7 @@ func fixedMaps(extent int) []Map {
 		Identity,
 		{"2^-20", math.Ldexp(1, -20), 0, 0},
 		{"2^8+far", 256, 1048576 - 256*e, -1048576},
-		{"neg", 1, -math.Floor(e/2) - 1, -math.Floor(e/2)},
+		{"neg", 1, -math.Floor(e/2) - 1, -math.Floor(e / 2)},
 		{"2^-10+1000", math.Ldexp(1, -10), 1000, -1000},
 	}
 }
